@@ -99,17 +99,14 @@ func runStress(dir string, seed uint64, tier string) {
 				}()
 				f()
 			}()
-			select {
-			case <-done:
+			if why := patientWait(done, 8*time.Second, 50*time.Second); why != "" {
+				if atomic.CompareAndSwapInt32(&hung, 0, 1) {
+					fail(round, "stress-call-hangs:"+name, name+" did not return within 58s under concurrent use (deadlock?)\n"+why, label)
+				}
+			} else {
 				atomic.AddInt64(&st.calls, 1)
 				if d := int64(time.Since(start)); d > atomic.LoadInt64(&st.slowest) {
 					atomic.StoreInt64(&st.slowest, d)
-				}
-			case <-time.After(8 * time.Second):
-				if atomic.CompareAndSwapInt32(&hung, 0, 1) {
-					buf := make([]byte, 1<<20)
-					buf = buf[:runtime.Stack(buf, true)]
-					fail(round, "stress-call-hangs:"+name, name+" did not return within 8s under concurrent use (deadlock?)\n"+blockedLibraryFrames(string(buf)), label)
 				}
 			}
 		}
@@ -333,25 +330,41 @@ func runStress(dir string, seed uint64, tier string) {
 		// stopping the manager while transfers are active returns
 		stopDone := make(chan struct{})
 		go func() { _ = r.mgr.Stop(ctx); close(stopDone) }()
-		select {
-		case <-stopDone:
-		case <-time.After(10 * time.Second):
-			buf := make([]byte, 1<<20)
-			buf = buf[:runtime.Stack(buf, true)]
-			fail(round, "stress-stop-hangs", "Stop did not return within 10s while transfers were active\n"+blockedLibraryFrames(string(buf)), label)
+		if why := patientWait(stopDone, 10*time.Second, 50*time.Second); why != "" {
+			fail(round, "stress-stop-hangs", "Stop did not return within 60s while transfers were active\n"+why, label)
 		}
 		close(stop)
 		wdone := make(chan struct{})
 		go func() { wg.Wait(); close(wdone) }()
-		select {
-		case <-wdone:
-		case <-time.After(12 * time.Second):
+		if why := patientWait(wdone, 12*time.Second, 60*time.Second); why != "" {
 			if atomic.LoadInt32(&hung) == 0 {
-				fail(round, "stress-workers-hang", "workers did not finish after Stop", label)
+				fail(round, "stress-workers-hang", "workers did not finish after Stop\n"+why, label)
 			}
 		}
 		unsub1()
 		unsub2()
+		// the manager has stopped and nothing else is running: whatever still arrives (a request of a remote
+		// peer for a channel never seen, calls of an application that has not noticed yet) returns -- one
+		// after the other, so this part does not depend on the scheduler
+		if atomic.LoadInt32(&hung) == 0 {
+			late := func(name string, f func()) {
+				done := make(chan struct{})
+				go func() { defer close(done); defer func() { _ = recover() }(); f() }()
+				if why := patientWait(done, 5*time.Second, 20*time.Second); why != "" {
+					fail(round, "call-after-stop-hangs:"+name, name+" made after Stop had returned never returned\n"+why, label)
+				}
+			}
+			m := r.realMsg(newReq(uint64(900000+round), false))
+			late("ReceiveRequest(new)", func() { r.receiver.ReceiveRequest(ctx, peerOf(7), m.(datatransfer.Request)) })
+			late("ChannelState", func() {
+				_, _ = r.mgr.ChannelState(ctx, datatransfer.ChannelID{Initiator: peerOf(7), Responder: r.self, ID: datatransfer.TransferID(900000 + round)})
+			})
+			late("OpenPushDataChannel", func() { _, _ = r.mgr.OpenPushDataChannel(ctx, peerOf(7), v, cidOf(1), nodeOf(2)) })
+			if c, ok := pick(newRng(seed + uint64(round))); ok {
+				late("CloseDataTransferChannel", func() { _ = r.mgr.CloseDataTransferChannel(ctx, c) })
+				late("OnDataQueued", func() { _, _ = r.mgr.(datatransfer.EventsHandler).OnDataQueued(c, cidlink.Link{Cid: cidOf(1)}, 10, 1, true) })
+			}
+		}
 		// ... and leaves no goroutine blocked on library locks
 		time.Sleep(100 * time.Millisecond)
 		buf := make([]byte, 1<<21)
@@ -419,6 +432,64 @@ func blockedOnLibraryLock(dump string) map[string]string {
 		}
 	}
 	return out
+}
+
+// patientWait waits for done.  A call that is merely slow (the machine may be busy with other checks)
+// is not a hang: after `first` the goroutine dump is taken, and only when the call has still not
+// returned after a further `more` AND some goroutine that runs library code sits in exactly the same
+// frames in a second dump is it reported, with those stacks.  Returns "" when done was closed.
+func patientWait(done <-chan struct{}, first, more time.Duration) string {
+	select {
+	case <-done:
+		return ""
+	case <-time.After(first):
+	}
+	dump := func() string {
+		buf := make([]byte, 1<<22)
+		return string(buf[:runtime.Stack(buf, true)])
+	}
+	d1 := dump()
+	select {
+	case <-done:
+		return ""
+	case <-time.After(more):
+	}
+	d2 := dump()
+	if p := os.Getenv("VERIF_HANG_DUMP"); p != "" {
+		_ = os.WriteFile(fmt.Sprintf("%s.%d", p, time.Now().UnixNano()), []byte(d2), 0o644)
+	}
+	stacks := func(d string) map[string]string {
+		out := map[string]string{}
+		for _, g := range strings.Split(d, "\n\n") {
+			lines := strings.Split(g, "\n")
+			if len(lines) < 3 || !strings.HasPrefix(lines[0], "goroutine ") || !strings.Contains(g, "go-data-transfer/v2") {
+				continue
+			}
+			var fr []string
+			for i := 1; i < len(lines); i += 2 {
+				fr = append(fr, strings.TrimSpace(lines[i]))
+			}
+			out[strings.Fields(lines[0])[1]] = strings.Join(fr, "\n")
+		}
+		return out
+	}
+	a, b := stacks(d1), stacks(d2)
+	var stuck []string
+	for id, fr := range a {
+		if b[id] == fr && !strings.Contains(fr, "patientWait") {
+			if len(fr) > 1500 {
+				fr = fr[:1500]
+			}
+			stuck = append(stuck, "goroutine "+id+" (same frames "+more.String()+" apart):\n"+fr)
+		}
+		if len(stuck) >= 4 {
+			break
+		}
+	}
+	if len(stuck) == 0 {
+		return "no goroutine running library code was found in the same frames in both dumps"
+	}
+	return strings.Join(stuck, "\n--\n")
 }
 
 func blockedLibraryFrames(dump string) string {
@@ -533,15 +604,12 @@ func runGsStress(res *suiteResult, seed uint64, tier string, firstID int) int {
 				}()
 				f()
 			}()
-			select {
-			case <-done:
-				atomic.AddInt64(&calls, 1)
-			case <-time.After(8 * time.Second):
+			if why := patientWait(done, 8*time.Second, 50*time.Second); why != "" {
 				if atomic.CompareAndSwapInt32(&hung, 0, 1) {
-					buf := make([]byte, 1<<20)
-					buf = buf[:runtime.Stack(buf, true)]
-					fail(id, "gsstress-call-hangs:"+name, name+" did not return within 8s under concurrent use (deadlock?)\n"+blockedLibraryFrames(string(buf)), label)
+					fail(id, "gsstress-call-hangs:"+name, name+" did not return within 58s under concurrent use (deadlock?)\n"+why, label)
 				}
+			} else {
+				atomic.AddInt64(&calls, 1)
 			}
 		}
 		stop := make(chan struct{})
@@ -664,22 +732,16 @@ func runGsStress(res *suiteResult, seed uint64, tier string, firstID int) int {
 		close(stop)
 		wdone := make(chan struct{})
 		go func() { wg.Wait(); close(wdone) }()
-		select {
-		case <-wdone:
-		case <-time.After(12 * time.Second):
+		if why := patientWait(wdone, 12*time.Second, 60*time.Second); why != "" {
 			if atomic.LoadInt32(&hung) == 0 {
-				fail(id, "gsstress-workers-hang", "workers did not finish", label)
+				fail(id, "gsstress-workers-hang", "workers did not finish\n"+why, label)
 			}
 		}
 		stopDone := make(chan struct{})
 		go func() { _ = g.mgr.Stop(ctx); close(stopDone) }()
-		select {
-		case <-stopDone:
-		case <-time.After(10 * time.Second):
+		if why := patientWait(stopDone, 10*time.Second, 50*time.Second); why != "" {
 			if atomic.LoadInt32(&hung) == 0 {
-				buf := make([]byte, 1<<20)
-				buf = buf[:runtime.Stack(buf, true)]
-				fail(id, "gsstress-stop-hangs", "Stop did not return within 10s while transfers were active\n"+blockedLibraryFrames(string(buf)), label)
+				fail(id, "gsstress-stop-hangs", "Stop did not return within 60s while transfers were active\n"+why, label)
 			}
 		}
 		res.Extra[fmt.Sprintf("gsround%d_calls", round)] = atomic.LoadInt64(&calls)
